@@ -925,8 +925,15 @@ def get_processed_input(key, mapper, the_dict, *, enable_undefined, use_strict_m
         processed_input = key_mapper.func(*args) if args else None
     elif isinstance(key_mapper, (str,)):
         val = deep_get(the_dict, key_mapper, enable_undefined=enable_undefined)
+        # fall back to the unmapped field name only if that name is not the mapped key of
+        # another field (otherwise this field captures the other field's value)
+        name_is_taken = any(
+            k != key and isinstance(v, str) and v == key for k, v in mapper.items()
+        )
         processed_input = (
-            val if (val is not None or use_strict_mapping) else the_dict.get(key)
+            val
+            if (val is not None or use_strict_mapping or name_is_taken)
+            else the_dict.get(key)
         )
     elif isinstance(key_mapper, Constant):
         processed_input = key_mapper()
